@@ -416,6 +416,8 @@ func (e *Engine) apply(s *slot, op Op) error {
 	case "delete":
 		_, present := s.model.Get(op.K)
 		mutating = present
+	case "move":
+		mutating = true
 	case "audit":
 		return nil // the audits themselves run in Apply
 	case "gc":
@@ -460,6 +462,8 @@ func (e *Engine) apply(s *slot, op Op) error {
 		err = e.doDelete(s, op)
 	case "search":
 		err = e.doSearch(s, op)
+	case "move":
+		err = e.doMove(s, op)
 	case "min", "max":
 		err = e.doExtreme(s, op)
 	case "all", "backward", "prefix", "topk", "bottomk", "range":
@@ -1187,6 +1191,35 @@ func (e *Engine) readFreeReplicaCheck() error {
 			return violf("final query results differ between the tree on which queries were interleaved and a replica that saw only the mutating operations:\n%s\nvs replica\n%s", a, b)
 		}
 		e.fact("readfree_replica_compared")
+	}
+	return nil
+}
+
+// doMove re-files a stored value object under another key without rebuilding it:
+// afterwards both keys refer to the same object (and after the source is
+// overwritten or deleted only the destination does).
+func (e *Engine) doMove(s *slot, op Op) error {
+	what := showOp(e.Kinds(), op)
+	src, present := s.model.Get(op.K)
+	if _, toPresent := s.model.Get(op.K2); !toPresent && e.cfg.ExcludeKF {
+		if kf := e.kfConflict(s, op.K2); kf != "" {
+			e.fact("excluded_" + kf)
+			return nil
+		}
+	}
+	if ck, ok := s.kind.(*collKind); ok && ck.ktype == "runes" && !validRunes(op.K2) {
+		return nil
+	}
+	var got bool
+	if p := call(func() { got = s.sub.Move(op.K, op.K2) }); p != "" {
+		return e.outcome("insert", what, p)
+	}
+	if e.asserted("search") && got != present {
+		return violf("%s: source reported present=%v, expected %v", what, got, present)
+	}
+	if present {
+		s.model.Put(op.K2, src.V)
+		e.fact("moved_value")
 	}
 	return nil
 }
